@@ -24,6 +24,10 @@ var c10Configs = []Config{
 	{KM: "localkm", CA: "gcsca", LongLived: true},
 	{KM: "memkm", CA: "memca", LongLived: true},
 	{KM: "localkm", CA: "localca", LongLived: true},
+	{KM: "gcpkms", CA: "gcsca"},
+	{KM: "gcpkms", CA: "gcsca", ViaCLI: true},
+	{KM: "gcpkms", CA: "memca"},
+	{KM: "gcpkms", CA: "gcsca", LongLived: true},
 }
 
 const c10MaxK = 128
@@ -46,6 +50,8 @@ func init() {
 			{Name: "rotate.Key / cmd rotate, rotate.Bootstrap", Kind: "real"},
 			{Name: "sign/gcsca, sign/memca, testing/nonprod/localca", Kind: "real"},
 			{Name: "testing/nonprod/memkm, localkm, sign/nonprod signer", Kind: "real", Note: "keys from a fixed pool (hook H3); localkm on a per-run scratch directory"},
+			{Name: "keys/gcpkms Manager + Signer", Kind: "real", Note: "over SimKMS with zero generation latency; every RPC is a numbered seam call"},
+			{Name: "Cloud KMS + IAM", Kind: "stub", Note: "SimKMS / SimIAM"},
 			{Name: "endorse.SignDoc, verify.Endorsement (health probe)", Kind: "real"},
 			{Name: "object store", Kind: "stub", Note: "SimDisk with fault plan"},
 			{Name: "fault decorators around keys.ManagerInterface, styp.Signer, styp.CertificateAuthority", Kind: "stub"},
